@@ -121,10 +121,14 @@ def ensure_facts(config="default", repo=None, target_dir=None, verbose=False):
         shutil.rmtree(outdir, ignore_errors=True)
         if verbose:
             print("extracted %s in %.1fs" % (out, time.time() - t0), file=sys.stderr)
-        # keep the cache small: drop fact files older than the 12 newest
+        # keep the cache small: drop fact files beyond the 24 newest - but never one younger than 20 minutes, which a
+        # concurrent check (self-test, seeded/benign evaluation) may be about to read
         fdir = os.path.join(CACHE, "facts")
         olds = sorted((os.path.getmtime(os.path.join(fdir, f)), f) for f in os.listdir(fdir) if f.endswith(".json"))
-        for _, f in olds[:-12]:
+        now = time.time()
+        for mt, f in olds[:-24]:
+            if now - mt < 1200:
+                continue
             for g in (f, f + ".pickle"):
                 try:
                     os.remove(os.path.join(fdir, g))
